@@ -52,9 +52,11 @@ def run(chk):
     # a long run: the persisted log spans several pages of the store's tick streaming (page size 100)
     wd = chk.work / "c13_long"
     wd.mkdir(parents=True, exist_ok=True)
-    long_prog = sc.resumable(2, 30, 3, 0)
-    for c in sv.crash_cases(long_prog, wd, order="fifo", seed=0, ks=lambda kinds: [i + 1 for i, k in enumerate(kinds) if k == "add" and i + 1 > 100][:chk.pick(3, 12)]):
-        items.append(("resumable(2,30)/fifo0/k=%d" % c["k"], long_prog, (), [c], [["crash_after_tick", c["k"]]]))
+    for (n_ev, order) in chk.pick([(30, "fifo"), (30, "lifo"), (28, "lifo")], [(26, "lifo"), (28, "lifo"), (30, "fifo"), (30, "lifo"), (33, "lifo"), (33, "fifo")]):
+        long_prog = sc.resumable(2, n_ev, 3, 0)
+        for c in sv.crash_cases(long_prog, wd, order=order, seed=n_ev,
+                                ks=lambda kinds: [i + 1 for i, k in enumerate(kinds) if k == "add" and i + 1 > 101][:chk.pick(2, 8)]):
+            items.append(("resumable(2,%d)/%s/k=%d" % (n_ev, order, c["k"]), long_prog, (), [c], [["crash_after_tick", c["k"]]]))
     chk.add(crash_points=len(items))
     eg.standard_run(chk, "C13", None, {"case"}, items=items, key_of=key_of, conform=False,
                     nontrivial=lambda tr: not tr[0]["prefix_ends_run"])
